@@ -226,6 +226,8 @@ impl Cartesian<'_> {
         println!("Probing {} strategies", strategies.len());
 
         let stop = Arc::new(AtomicBool::new(false));
+        #[cfg(rs_opw_verif)]
+        let strategies = crate::verif_hooks::Controlled::new(strategies);
 
         strategies
             .par_iter()
@@ -235,6 +237,8 @@ impl Cartesian<'_> {
                 ) {
                     Ok(outcome) => {
                         println!("Strategy worked out: {:?}", strategy);
+                        #[cfg(rs_opw_verif)]
+                        crate::verif_hooks::point("plan.stop.store");
                         stop.store(true, Ordering::Relaxed);
                         Some(Ok(outcome))
                     }
@@ -337,6 +341,8 @@ impl Cartesian<'_> {
                 started.elapsed()
             );
         }
+        #[cfg(rs_opw_verif)]
+        crate::verif_hooks::point("probe.stop.load");
         if stop.load(Ordering::Relaxed) {
             return Err("Stopped".into());
         }
